@@ -1,9 +1,13 @@
 #!/bin/sh
-# Re-runs every seeded change under /verif/seeded against its property's quick check
+# Re-runs every seeded change under seeded/ against its property's quick check
 # (scratch copy of /repo/src; /repo itself is never touched). One line per change.
 cd "$(dirname "$0")/.."
 for d in seeded/S*/; do
   id=$(basename "$d"); prop=$(/venv/bin/python -c "import json;print(json.load(open('$d/meta.json'))['breaks_property'])")
-  n=$(tools/try_patch.sh "$d/patch.diff" "$prop" "$@" 2>/dev/null | grep -c "VIOLATION")
-  if [ "$n" -gt 0 ]; then echo "caught  $id ($prop): $n distinct violation signature(s)"; else echo "MISSED  $id ($prop)"; fi
+  out=$(tools/try_patch.sh "$d/patch.diff" "$prop" "$@" 2>/dev/null)
+  n=$(printf '%s\n' "$out" | grep -c "VIOLATION")
+  h=$(printf '%s\n' "$out" | grep -c "HARNESS-ERROR")
+  if [ "$n" -gt 0 ]; then echo "caught  $id ($prop): $n distinct violation signature(s)$( [ "$h" -gt 0 ] && echo ", $h harness error line(s)")";
+  elif [ "$h" -gt 0 ]; then echo "HARNESS $id ($prop): $h harness error line(s), no violation reported";
+  else echo "MISSED  $id ($prop)"; fi
 done
